@@ -124,5 +124,13 @@ Definition render_ok (c : path * path * path * path * path * path) : bool :=
 Definition check_render := mismatches render_ok.
 (* api.Build: (entry names, outdir, outbase, entry, custom output path, extension, reported output path) *)
 Definition outpath_ok (c : path * path * path * path * path * path * path) : bool :=
-  let '(t, od, ob, en, cu, ex, r) := c in path_eqb (entry_out_path od (entry_template t) ob en cu [] ex) r.
+  let '(t, od, ob, en, cu, ex, r) := c in path_eqb (entry_out_path od (entry_template t) ob en (explicit_custom od cu) [] ex) r.
 Definition check_outpath := mismatches outpath_ok.
+(* api.Build, file-loader assets: (asset names, outdir, outbase, asset, hash, reported path) *)
+Definition assetpath_ok (c : path * path * path * path * path * path) : bool :=
+  let '(t, od, ob, a, h, r) := c in path_eqb (asset_out_path od (asset_template t) ob a h) r.
+Definition check_assetpath := mismatches assetpath_ok.
+(* api.Build with splitting, shared chunks: (chunk names, outdir, hash, extension, reported path) *)
+Definition chunkpath_ok (c : path * path * path * path * path) : bool :=
+  let '(t, od, h, ex, r) := c in path_eqb (chunk_out_path od (asset_template t) h ex) r.
+Definition check_chunkpath := mismatches chunkpath_ok.
